@@ -53,7 +53,7 @@ theorem last_after_store (raw : Raw) (e : Env) (t0 : Int) (pre post : List Op) (
           ((C05.reach (sysCfg raw e) t0 pre).s.now + e.wallOff)).chunk := by
   have hnow : (C05.reach (sysCfg raw e) t0 pre).s.now =
       (ChunkStore.runSpec (ChunkStore.paramsOf (sysCfg raw e).node) (ChunkStore.freshSpec t0) (c01Hist pre)).now :=
-    (agree_reach (sysCfg raw e) t0 pre).now.trans (node_rel raw e t0 pre).now_eq
+    (agree_reach (sysCfg raw e) rfl t0 pre).now.trans (node_rel raw e t0 pre).now_eq
   have hsplit : c01Hist (pre ++ Op.store c ttl hint :: post) =
       c01Hist pre ++ (StoreSpec.Op.nstore c [] [] [] ttl :: c01Hist post) := by
     rw [c01Hist_append]; rfl
